@@ -213,7 +213,69 @@ def eval_reload(case):
     return {'v': v, 'nt': tuple(case), 'out': f'{len(second)}-partitions-after-reload'}
 
 
-REPLAY = {'vectors': eval_vector, 'reload': eval_reload}
+def eval_kept_view(case):
+    """history on ONE aggregate-model view: `arm = t.as_arm()` is partitioned, the model then GROWS through the topology API
+    (a new worker with a NIC, cabled to a new port of the switch; optionally one of its interfaces delegated), and the same
+    view is partitioned again. The view is a live recast of the model: its partitions equal those a fresh view gives."""
+    from fim.user.topology import SubstrateTopology   # noqa  (build_site made one)
+    from fim.slivers.capacities_labels import Labels, Capacities
+    from fim.user.component import ComponentModelType
+    from fim.user.node import NodeType
+    from fim.user.interface import InterfaceType
+    from fim.user.link import LinkType
+    choice_old, choice_new, looks = case
+    v = []
+    world.reset_all()
+    t, ids = build_site('A', workers=1)
+    arm = t.as_arm()
+    w0 = ids['workers'][0]
+    annotate(arm, w0['ports'][0], choice_old, pool_tag='o')
+    ctx = f'[first port {choice_old}; new port {choice_new}; partitioned {looks}x before the model grew]'
+    try:
+        for _ in range(looks):
+            arm.generate_adms()
+        wn = t.add_node(name='A-w9', node_id='A-w9', site='A', ntype=NodeType.Server, capacities=Capacities(core=8, ram=16, disk=10))
+        nic = wn.add_component(name='nic', node_id='A-w9-nic', model_type=ComponentModelType.SmartNIC_ConnectX_6,
+                               network_service_node_id='A-w9-nic-sf', interface_node_ids=['A-w9-nic-p1', 'A-w9-nic-p2'],
+                               interface_labels=[Labels(bdf='0000:42:00.0', mac='00:00:00:00:09:01'),
+                                                 Labels(bdf='0000:42:00.1', mac='00:00:00:00:09:02')],
+                               capacities=Capacities(unit=1))
+        sf = t.nodes['A-sw'].network_services['A-sw-ns']
+        sp = sf.add_interface(name='A-sw-p9', node_id='A-sw-p9', itype=InterfaceType.TrunkPort, labels=Labels(local_name='p9'),
+                              capacities=Capacities(bw=100))
+        t.add_link(name='A-l9', node_id='A-l9', ltype=LinkType.Patch,
+                   interfaces=[sorted(nic.interface_list, key=lambda x: x.name)[0], sp])
+        annotate(arm, 'A-w9-nic-p1', choice_new, pool_tag='n')
+        kept = arm.generate_adms()
+        fresh = t.as_arm().generate_adms()
+    except Exception as e:
+        import traceback
+        v.append((f'kept-view/raises/{type(e).__name__}', f'{e} {ctx} {traceback.format_exc(limit=2)}'))
+        return {'v': v, 'nt': tuple(case), 'out': 'raise'}
+
+    def sig(models):
+        out = {}
+        for did, adm in models.items():
+            _, nn, ee = snapshot(adm.graph_id)
+            out[did] = (sorted(nn), sorted(map(repr, ee)))
+        return out
+    sk, sfr = sig(kept), sig(fresh)
+    if sk != sfr:
+        for did in sorted(set(sk) | set(sfr)):
+            a, b = sk.get(did), sfr.get(did)
+            if a != b:
+                missing = sorted(set(b[0]) - set(a[0])) if a and b else None
+                v.append(('kept-view/partition-differs-from-fresh-view', f'partition {did}: the kept view lacks {missing} {ctx}'))
+    # the grown element and what hangs on it is in the partition that names it
+    for did, adm in kept.items():
+        _, nn, _ = snapshot(adm.graph_id)
+        if 'A-w9-nic-p1' in nn and not {'A-l9', 'A-sw-p9', 'A-w9-nic-sf', 'A-w9-nic'} <= set(nn):
+            v.append(('kept-view/interface-without-its-surroundings',
+                      f'partition {did} keeps A-w9-nic-p1 but lacks {sorted({"A-l9", "A-sw-p9", "A-w9-nic-sf", "A-w9-nic"} - set(nn))} {ctx}'))
+    return {'v': v, 'nt': tuple(case), 'out': f'{len(kept)}-partitions'}
+
+
+REPLAY = {'vectors': eval_vector, 'reload': eval_reload, 'kept-view': eval_kept_view}
 
 
 def run(report):
@@ -236,5 +298,10 @@ def run(report):
     explore_cases(report, 'reload', eval_reload,
                   [(how, a, b) for how in ('string', 'file') for a in ('none', 'LC@d1', 'L@d1') for b in ('none', 'LC@d2', 'LC@d1')], chunk=2,
                   rule='one topology object: partition model A, load model B into it (text | file), partition again')
+    explore_cases(report, 'kept-view', eval_kept_view,
+                  [(a, b, k) for a in ('none', 'LC@d1', 'L@d1') for b in ('LC@d1', 'LC@d2', 'L@d1', 'none') for k in (1, 2)], chunk=2,
+                  rule='one aggregate-model view: partitioned once or twice, then the model grows through the topology API (worker, '
+                       'NIC, switch port, link) and a new interface is delegated; partitioning through the kept view equals '
+                       'partitioning through a fresh view, and the new interface comes with its link, peer, service and owner')
     report.require(g['outcomes'].get('2-partitions', 0) > 0 and g['outcomes'].get('1-partitions', 0) > 0, 'one and two partitions')
     report.assumptions.append('extra kept nodes are allowed by the statement and not flagged; in-memory backend as the property states')
